@@ -6,5 +6,7 @@ Require Import V.base.Bytes V.gen.Hagrid V.model.Transcript V.model.H2c V.model.
 Extraction Blacklist List String Nat.
 Extraction "model.ml" crun new_transcript expand_message_xmd expand_message_xof hash_to_field_from_uniform
   hash_to_field ws_h2f ws_map ws_to_affine ws_hash_to_curve ws_encode_to_curve ws_on_curve ws_in_subgroup
-  k256_suite p256_suite bls12381g1_suite
-  ed_h2f ed_map ed_to_affine ed_hash_to_curve ed_on_curve ed_in_subgroup.
+  k256_suite p256_suite bls12381g1_suite pallas_suite vesta_suite
+  ed_h2f ed_map ed_to_affine ed_hash_to_curve ed_on_curve ed_in_subgroup
+  g2_h2f g2_map g2_to_affine g2_hash_to_curve g2_on_curve g2_in_subgroup
+  ws_iso_identity g2_iso_identity.
